@@ -33,15 +33,52 @@ impl MmapMut {
         panic!()
     }
 
-    fn copy_from_slice(&self, _: &[u8]) {
+    fn flush(&self) -> std::io::Result<()> {
         panic!()
     }
+
+    fn len(&self) -> usize {
+        panic!()
+    }
+
+    fn store(&mut self, _: usize, _: &[u8]) {
+        panic!()
+    }
+}
+
+#[cfg(feature = "mmap")]
+trait MmapStore {
+    fn store(&mut self, pos: usize, buf: &[u8]);
+}
+
+#[cfg(feature = "mmap")]
+impl MmapStore for MmapMut {
+    fn store(&mut self, pos: usize, buf: &[u8]) {
+        self[pos..pos + buf.len()].copy_from_slice(buf);
+    }
+}
+
+/// Stops using the mapping (if any), leaving the temp file holding exactly the
+/// `len` bytes stored through it so far, with the cursor at its end.
+fn end_mmap(
+    mmap: &mut Option<MmapMut>,
+    len: usize,
+    tmpfile: &mut NamedTempFile,
+) -> std::io::Result<()> {
+    if let Some(mmap) = mmap.take() {
+        mmap.flush()?;
+        drop(mmap);
+        tmpfile.as_file().set_len(len as u64)?;
+        tmpfile.seek(std::io::SeekFrom::Start(len as u64))?;
+    }
+    Ok(())
 }
 
 pub struct Writer {
     cache: PathBuf,
     builder: IntegrityOpts,
     mmap: Option<MmapMut>,
+    mmap_pos: usize,
     tmpfile: NamedTempFile,
 }
 
@@ -72,10 +109,16 @@ impl Writer {
             builder: IntegrityOpts::new().algorithm(algo),
             tmpfile,
             mmap,
+            mmap_pos: 0,
         })
     }
 
-    pub fn close(self) -> Result<Integrity> {
+    pub fn close(mut self) -> Result<Integrity> {
+        if matches!(&self.mmap, Some(mmap) if self.mmap_pos < mmap.len()) {
+            // Fewer bytes than declared: don't publish the unused tail.
+            end_mmap(&mut self.mmap, self.mmap_pos, &mut self.tmpfile)
+                .with_context(|| "Failed to finalize temp file while closing writer".into())?;
+        }
         let sri = self.builder.result();
         let cpath = path::content_path(&self.cache, &sri);
         DirBuilder::new()
@@ -114,13 +157,19 @@ impl Writer {
 
 impl Write for Writer {
     fn write(&mut self, buf: &[u8]) -> std::io::Result<usize> {
-        self.builder.input(buf);
         if let Some(mmap) = &mut self.mmap {
-            mmap.copy_from_slice(buf);
-            Ok(buf.len())
-        } else {
-            self.tmpfile.write(buf)
+            if self.mmap_pos + buf.len() <= mmap.len() {
+                mmap.store(self.mmap_pos, buf);
+                self.mmap_pos += buf.len();
+                self.builder.input(buf);
+                return Ok(buf.len());
+            }
+            // More data than declared: carry on with plain writes.
+            end_mmap(&mut self.mmap, self.mmap_pos, &mut self.tmpfile)?;
         }
+        let written = self.tmpfile.write(buf)?;
+        self.builder.input(&buf[..written]);
+        Ok(written)
     }
 
     fn flush(&mut self) -> std::io::Result<()> {
@@ -143,6 +192,7 @@ struct Inner {
     builder: IntegrityOpts,
     tmpfile: NamedTempFile,
     mmap: Option<MmapMut>,
+    mmap_pos: usize,
     buf: Vec<u8>,
     last_op: Option<Operation>,
 }
@@ -177,6 +227,7 @@ impl AsyncWriter {
             cache: cache_path,
             builder: IntegrityOpts::new().algorithm(algo),
             mmap,
+            mmap_pos: 0,
             tmpfile,
             buf: vec![],
             last_op: None,
@@ -196,12 +247,24 @@ impl AsyncWriter {
                         None => return Poll::Ready(None),
                         Some(inner) => {
                             let (s, r) = futures::channel::oneshot::channel();
-                            let tmpfile = inner.tmpfile;
+                            let mut tmpfile = inner.tmpfile;
+                            let mut mmap = inner.mmap;
+                            let mmap_pos = inner.mmap_pos;
                             let sri = inner.builder.result();
                             let cpath = path::content_path(&inner.cache, &sri);
 
                             // Start the operation asynchronously.
-                            *state = State::Busy(crate::async_lib::spawn_blocking(|| {
+                            *state = State::Busy(crate::async_lib::spawn_blocking(move || {
+                                if matches!(&mmap, Some(m) if mmap_pos < m.len()) {
+                                    // Fewer bytes than declared: don't publish the unused tail.
+                                    let res = end_mmap(&mut mmap, mmap_pos, &mut tmpfile);
+                                    if res.is_err() {
+                                        let _ = s.send(res.map(|_| sri).with_context(|| {
+                                            "Failed to finalize temp file while closing writer".into()
+                                        }));
+                                        return State::Idle(None);
+                                    }
+                                }
                                 let res = std::fs::DirBuilder::new()
                                     .recursive(true)
                                     // Safe unwrap. cpath always has multiple segments
@@ -306,16 +369,28 @@ impl AsyncWrite for AsyncWriter {
 
                         // Start the operation asynchronously.
                         *state = State::Busy(crate::async_lib::spawn_blocking(|| {
-                            inner.builder.input(&inner.buf);
                             if let Some(mmap) = &mut inner.mmap {
-                                mmap.copy_from_slice(&inner.buf);
-                                inner.last_op = Some(Operation::Write(Ok(inner.buf.len())));
-                                State::Idle(Some(inner))
-                            } else {
-                                let res = inner.tmpfile.write(&inner.buf);
-                                inner.last_op = Some(Operation::Write(res));
-                                State::Idle(Some(inner))
+                                if inner.mmap_pos + inner.buf.len() <= mmap.len() {
+                                    mmap.store(inner.mmap_pos, &inner.buf);
+                                    inner.mmap_pos += inner.buf.len();
+                                    inner.builder.input(&inner.buf);
+                                    inner.last_op = Some(Operation::Write(Ok(inner.buf.len())));
+                                    return State::Idle(Some(inner));
+                                }
+                                // More data than declared: carry on with plain writes.
+                                if let Err(e) =
+                                    end_mmap(&mut inner.mmap, inner.mmap_pos, &mut inner.tmpfile)
+                                {
+                                    inner.last_op = Some(Operation::Write(Err(e)));
+                                    return State::Idle(Some(inner));
+                                }
                             }
+                            let res = inner.tmpfile.write(&inner.buf);
+                            if let Ok(written) = res {
+                                inner.builder.input(&inner.buf[..written]);
+                            }
+                            inner.last_op = Some(Operation::Write(res));
+                            State::Idle(Some(inner))
                         }));
                     }
                 }
